@@ -719,6 +719,12 @@ def run_atheris(ctx, runs, seed_docs):
         if os.path.exists(out):
             found = [json.loads(l) for l in open(out) if l.strip()]
         if rc not in (0, "timeout") and not found:
+            if "No module named 'atheris'" in (log or ""):
+                # atheris is installed by MANIFEST.setup_cmd into /verif/.deps; without it the campaign is skipped
+                # (the Hypothesis / exhaustive parts above are the deciding checks), never reported as a violation
+                ctx.notes.setdefault("atheris", {})["skipped"] = "atheris not importable (run tools/setup.py)"
+                ctx.cls("atheris:skipped_not_installed")
+                return
             raise runner.HarnessError("atheris child failed (rc=%s): %s" % (rc, log[-1500:]))
         ctx.evaluations += stats.get("execs", 0)
         for k, v in stats.get("classes", {}).items():
